@@ -24,5 +24,5 @@ package localnonvcs
 //@ func (*T).PersistentPreRunE
 //@   requires t != nil
 //@   assigns nothing
-//@   modifies fsFile, fsDirOps
+//@   modifies fsFile, fsDirOps, lastStatOK
 //@   ensures[C15] fsDirOps == old(fsDirOps) && fsFile == old(fsFile)
